@@ -9,6 +9,8 @@ package operationparser
 import (
 	"encoding/json"
 	"fmt"
+	"math"
+	"math/big"
 
 	"github.com/pkg/errors"
 
@@ -261,7 +263,13 @@ func (p *Parser) validateNonce(nonce string) error {
 
 func (p *Parser) getAnchorUntil(from, until int64) int64 {
 	if from != 0 && until == 0 {
-		return from + int64(p.MaxOperationTimeDelta)
+		// the sum as an integer, or the greatest time there is when it lies beyond that (it used to wrap around)
+		sum := new(big.Int).Add(big.NewInt(from), new(big.Int).SetUint64(p.MaxOperationTimeDelta))
+		if !sum.IsInt64() {
+			return math.MaxInt64
+		}
+
+		return sum.Int64()
 	}
 
 	return until
